@@ -645,7 +645,8 @@ def _check_aparam(ctx, rep, case):
     sig = {"check": "C13", "sub": v, "rule": case["rule"]}
     if v != "adaptive_param_not_validated":
         sig["exc"] = o["exc_name"]
-        sig["simulator"] = case["sim"]
+        if v != "adaptive_param_wrong_exception_type":
+            sig["simulator"] = case["sim"]
     if case["form"] != "callable":
         sig["form"] = case["form"]
     want = ("a PiquassoException and no Result (the invalid value was resolved on a branch)" if _aparam_expect(case, o) == "reject"
